@@ -126,3 +126,66 @@ def fstring_pattern(expr, holes=None):
                 hs.append(v.value)
         return pat, hs
     return None, None
+
+
+def local_defs(fn_node):
+    """{local name: [(kind, ast)]} kind in assign|for|with|aug|other."""
+    out = {}
+    for n in walk_shallow(fn_node):
+        if isinstance(n, ast.Assign):
+            for t in n.targets:
+                if isinstance(t, ast.Name):
+                    out.setdefault(t.id, []).append(('assign', n.value))
+                elif isinstance(t, (ast.Tuple, ast.List)):
+                    for i, e in enumerate(t.elts):
+                        if isinstance(e, ast.Name):
+                            out.setdefault(e.id, []).append(
+                                ('unpack', (n.value, i)))
+        elif isinstance(n, ast.AugAssign) and isinstance(n.target, ast.Name):
+            out.setdefault(n.target.id, []).append(('aug', n.value))
+        elif isinstance(n, (ast.For, ast.comprehension)):
+            t = n.target
+            if isinstance(t, ast.Name):
+                out.setdefault(t.id, []).append(('for', n.iter))
+            elif isinstance(t, (ast.Tuple, ast.List)):
+                for i, e in enumerate(t.elts):
+                    if isinstance(e, ast.Name):
+                        out.setdefault(e.id, []).append(('for', (n.iter, i)))
+    return out
+
+
+def canon(expr, fn_node, depth=3, _defs=None):
+    """Text of expr with every function-local name replaced by the text of
+    its (unique) definition in <<...>>, loop variables by <<for:iter>>, and
+    multiply-defined locals by <<var>>.  Independent of local names."""
+    defs = _defs if _defs is not None else local_defs(fn_node)
+    params = set()
+    if hasattr(fn_node, 'args'):
+        params = {a.arg for a in fn_node.args.args}
+
+    class T(ast.NodeTransformer):
+        def visit_Name(self, node):
+            if node.id in params or node.id not in defs or \
+                    not isinstance(node.ctx, ast.Load):
+                return node
+            ds = defs[node.id]
+            if len(ds) == 1 and depth > 0:
+                kind, v = ds[0]
+                if kind == 'assign':
+                    return ast.Name(
+                        id='<<' + canon(v, fn_node, depth - 1, defs) + '>>',
+                        ctx=ast.Load())
+                if kind == 'for':
+                    it = v[0] if isinstance(v, tuple) else v
+                    sfx = f'[{v[1]}]' if isinstance(v, tuple) else ''
+                    return ast.Name(
+                        id='<<for:' + canon(it, fn_node, depth - 1, defs)
+                        + sfx + '>>', ctx=ast.Load())
+                if kind == 'unpack':
+                    return ast.Name(
+                        id='<<' + canon(v[0], fn_node, depth - 1, defs) +
+                        f'[{v[1]}]>>', ctx=ast.Load())
+            return ast.Name(id='<<var>>', ctx=ast.Load())
+    new = T().visit(ast.parse(unparse(expr), mode='eval').body
+                    if isinstance(expr, ast.expr) else expr)
+    return unparse(new)
